@@ -442,6 +442,8 @@ def edge_facts(body):
         t = body.term(s)
         if t["k"] != "switch":
             continue
+        if any("debug_assert" in x for x in (t.get("sp") or {}).get("x", [])):
+            continue  # not a guard in release builds
         e = peel(switch_discr_expr(body, s), through_try=False)
         if t.get("dty") == "bool":
             bt = bool_edge_targets(body, s)
